@@ -703,6 +703,7 @@ func ruleC17(c *Check) {
 		qfns = append(qfns, q.fn)
 	}
 	c.lookupsIndependentOfConfiguration("C17.10", qfns)
+	c.schemaNameNormalisation("C17.11", qfns)
 	// C17.6 id length checks before point lookups by request id
 	for _, q := range append(append([]querySig{}, grpc...), legacy...) {
 		for _, e := range c.P.SummaryOf(q.fn).Effs {
@@ -1104,4 +1105,76 @@ func (c *Check) validatorsOnEveryPath(rule string) {
 	}
 	c.Sites += nPairs
 	c.req(nFn >= 10 && nPairs >= 30, rule, "message-validators", token.NoPos, fmt.Sprintf("%d ValidateBasic functions, %d (validator, field) pairs", nFn, nPairs))
+}
+
+// schemaNameNormalisation (C17.11): the schema query answers by a switch on the requested schema name. Both query
+// interfaces compare the same function of that name with the same constants (today: the lower-cased name with "pricing" and
+// "result"): the set of (shape of the compared term, constant) pairs, with the request's own name field abstracted, is equal
+// for every function that returns the schema constants.
+func (c *Check) schemaNameNormalisation(rule string, entries []*Func) {
+	type shape map[string]bool
+	got := map[*Func]shape{}
+	for _, f := range entries {
+		returnsSchema := false
+		sh := shape{}
+		for _, pa := range c.P.PathsOf(f) {
+			for _, r := range pa.Ret {
+				r.Walk(func(t *Term) bool {
+					if t.Op == "" && (t.At == "#types.PricingSchema" || t.At == "#types.ResultSchema") {
+						returnsSchema = true
+					}
+					return true
+				})
+			}
+			for _, fa := range pa.AllFacts() {
+				fa.T.Walk(func(t *Term) bool {
+					if t.Op != "==" || len(t.A) != 2 {
+						return true
+					}
+					for i := 0; i < 2; i++ {
+						k, o := t.A[i], t.A[1-i]
+						if k.Op == "" && strings.HasPrefix(k.At, "#\"") {
+							// abstract the request's name field (a field selector on a parameter or on a decoded value)
+							os := o.String()
+							o.Walk(func(u *Term) bool {
+								if strings.HasPrefix(u.Op, ".") && len(u.A) == 1 {
+									os = strings.ReplaceAll(os, u.String(), "$NAME")
+									return false
+								}
+								return true
+							})
+							sh[os+" == "+k.At] = true
+						}
+					}
+					return true
+				})
+			}
+		}
+		if returnsSchema {
+			got[f] = sh
+		}
+	}
+	var fs []*Func
+	for f := range got {
+		fs = append(fs, f)
+	}
+	sort.Slice(fs, func(i, j int) bool { return fs[i].Name < fs[j].Name })
+	if len(fs) < 2 {
+		c.undecided(rule, "schema-queries", token.NoPos, fmt.Sprintf("%d query functions return the schema constants (need the gRPC and the legacy one)", len(fs)))
+		return
+	}
+	key := func(s shape) string {
+		var ks []string
+		for k := range s {
+			ks = append(ks, k)
+		}
+		sort.Strings(ks)
+		return strings.Join(ks, " ; ")
+	}
+	ref := key(got[fs[0]])
+	for _, f := range fs[1:] {
+		c.Sites++
+		c.req(key(got[f]) == ref && ref != "", rule, "schema-name:"+fs[0].Name+"~"+f.Name, f.Body.Pos(),
+			"both schema queries compare the same function of the requested name with the same constants: {"+ref+"} vs {"+key(got[f])+"}")
+	}
 }
